@@ -132,12 +132,23 @@ def _pre(cli, rig, pre):
         r = cli.xfer([0x40, 0x00, 0x20, 0x00, 0, 0, 0, 0])
         sx.prove(r is not None and r[0] == 0x41, "preceding initiate failed", "C06/history/pre-abort")
         rig.deliver(sx.mkbytes([0x80, 0, 0, 0, 0x00, 0x00, 0x04, 0x05]))
-    elif pre == "open-download":
+    elif pre == "download-sized2":
+        # a *sized* segmented download of two bytes to a 16-bit entry (size 2 announced), accepted: what it announced
+        # has no bearing on later transfers (which may come without a size)
+        r = cli.download(0x2002, 0, [0x34, 0x12], "seg-size")
+        sx.prove(r is None, "preceding download failed", "C06/history/pre-download")
+        WRITTEN.add((0x2002, 0))
+    elif pre.startswith("open-download"):
         # a segmented download to 0x2000 is left open: initiated, one segment confirmed, not finished
         r = cli.xfer([0x20, 0x00, 0x20, 0x00, 0, 0, 0, 0])
         sx.prove(r is not None and r[0] == 0x60, "preceding initiate failed", "C06/history/pre-open")
         r = cli.xfer([0x00] + list(b"OPENDAT"))
         sx.prove(r is not None and r[0] == 0x20, "preceding segment failed", "C06/history/pre-open")
+        if pre.endswith("local-read"):
+            # the application reads another object of its own node while the client's transfer is open
+            v = rig.node.sdo[0x2001].raw
+            sx.prove(v == 0x11, "local read", "C06/history/pre-local-read")
+            sx.reach("local-read")
     elif pre == "siblings":
         # successful writes to one member of each record/array: their siblings must behave as before
         for idx in (0x2020, 0x2030):
@@ -209,7 +220,7 @@ def refuse_read(scope, pre="none", callback=False):
             sx.reach("read-ok")
     sx.prove(rig.store_snapshot() == before or _same(rig.store_snapshot(), before), "read changed the store",
              tag + "/store-changed")
-    if pre == "open-download":
+    if pre.startswith("open-download"):
         _late_segment(cli, rig, before, tag)
     _post(cli, rig)
 
@@ -268,7 +279,7 @@ def refuse_write(scope, n, mode, pre="none"):
             sx.prove(_same(rig.store_snapshot(), before), "a segment after a refused write changed the store",
                      tag + "/late-segment-stored")
             sx.prove(len(seen) == 0, "write callback ran after a refused write", tag + "/late-segment-callback")
-    if pre == "open-download":
+    if pre.startswith("open-download"):
         _late_segment(cli, rig, rig.store_snapshot(), tag)
         if refused:
             sx.prove(len(seen) == 0, "write callback ran after a refused write", tag + "/open-download/callback")
@@ -364,7 +375,9 @@ def unknown_command(kind, pre="none"):
         sx.prove((r[1] == 0x00) & (r[2] == 0x20) & (r[3] == 0), "abort names the transfer served last", tag + "/mux-after-abort")
     sx.prove(_same(rig.store_snapshot(), before), "store changed", tag + "/store-changed")
     sx.reach("unknown-" + kind)
-    if pre == "open-download":
+    if kind == "ccs7" and pre.startswith("open-download"):
+        sx.prove((r[1] == 0x00) & (r[2] == 0x20) & (r[3] == 0), "abort names the open transfer", tag + "/mux-open-transfer")
+    if pre.startswith("open-download"):
         _late_segment(cli, rig, before, tag, initiate=(kind == "block"))
     _post(cli, rig)
 
@@ -449,11 +462,11 @@ def client_abort(op, at):
 
 def jobs(tier):
     out = []
-    pres = ("none", "upload", "download", "siblings", "open-download", "other-node")
+    pres = ("none", "upload", "download", "siblings", "open-download", "other-node", "download-sized2", "open-download-local-read")
     for pre in pres:
         for scope in ("var", "sub"):
             out.append(dict(func="refuse_read", params=dict(scope=scope, pre=pre), weight=20))
-            if pre in ("none", "open-download"):
+            if pre in ("none", "open-download", "open-download-local-read"):
                 out.append(dict(func="refuse_read", params=dict(scope=scope, pre=pre, callback=True), weight=20))
             for n in range(0, 10):
                 modes = ["seg-size", "seg-nosize"]
@@ -462,7 +475,10 @@ def jobs(tier):
                 if n == 4:
                     modes.append("exp-nosize")
                 for mode in modes:
-                    if pre != "none" and (n not in (1, 2, 4, 8) or mode == "seg-nosize") and tier == "quick":
+                    if pre == "download-sized2":
+                        if mode != "seg-nosize" or n > 5:       # the unsized follow-ups are the point of this pre-state
+                            continue
+                    elif pre != "none" and (n not in (1, 2, 4, 8) or mode == "seg-nosize") and tier == "quick":
                         continue
                     out.append(dict(func="refuse_write", params=dict(scope=scope, n=n, mode=mode, pre=pre), weight=20))
         for d in ("upload", "download"):
@@ -497,7 +513,7 @@ META = dict(
                     "sub-index != 0 on VAR objects", "refusals by the *server under test* in the middle of block transfers (it does not implement them); the client side is covered"],
     assumptions=["abort code for 'no value' as the repo's suite expects (0x060A0023)"],
     stubs=["struct", "bytes/bytearray", "dict displays -> SymDict", "queue", "logging"],
-    required_reach=["other-node", "read-missing-index", "read-missing-sub", "read-wo", "read-no-value", "read-ok",
+    required_reach=["other-node", "local-read", "read-missing-index", "read-missing-sub", "read-wo", "read-no-value", "read-ok",
                     "write-missing-index", "write-missing-sub", "write-ro", "write-length", "write-ok",
                     "toggle-upload", "toggle-download", "unknown-ccs7", "unknown-block", "client-abort"],
     limits=dict(quick=dict(max_decisions=20000), thorough=dict(max_decisions=20000, crosscheck_every=20, crosscheck_max=20)),
